@@ -29,10 +29,15 @@ def main():
     # helper processes started by the code under test (constexpr evaluation) must import the same tree
     os.environ["PYTHONPATH"] = os.path.join(common.REPO, "src") + (os.pathsep + os.environ["PYTHONPATH"] if os.environ.get("PYTHONPATH") else "")
     os.environ.pop("PYTHONDONTWRITEBYTECODE", None)
-    import checks_lang
-    import checks_proc
-    import checks_text
-    import checks_src
+    try:
+        import checks_lang
+        import checks_proc
+        import checks_text
+        import checks_src
+    except Exception:
+        traceback.print_exc()
+        print("MACHINERY-FAILURE: the harness does not import")
+        return 2
 
     table = {}
     table.update(checks_lang.CHECKS)
